@@ -397,9 +397,10 @@ func runC05Concurrent(c *core.Ctx, res *core.Result) {
 		}(w)
 	}
 	wg.Add(1)
+	mrr := r.Derive(77)
 	go func() {
 		defer wg.Done()
-		rr := r.Derive(77)
+		rr := mrr
 		for !stop.Load() {
 			if rr.Bool() {
 				e.FlushImMemTables()
